@@ -17,11 +17,18 @@
    Firmware side: Lang/EmitBlocks.v models what _emit_block / emit() write for the control-flow
    nodes (one stanza per branch, loop and handler, ALSO when its body emitted nothing) and, as
    specification, how C++ groups lines into compound statements and under which conditions each
-   line then runs; the theorems say that the block tree of the firmware is Python's block tree. *)
+   line then runs; the theorems say that the block tree of the firmware is Python's block tree.
+
+   Statement layer between the two (third round): Lang/Promote.v models variable promotion (_rewrite_nodes,
+   the local _rewrite of the if handler, _make_promotion_decls and what the while / for / try / if handlers
+   append), Lang/EmitStmt.v models _emit_block's statement nodes next to the de-duplication sets it carries
+   through setup(); the theorems say that no statement of the script leaves its block or disappears in either
+   step, for every set of promoted names and every state of the sets. *)
 From Coq Require Import ZArith List Bool.
-From RV Require Import Base.Wire Base.Text Lang.Rx Lang.Lex Lang.PyLayout Lang.Layout Lang.DispatchSpec Lang.EmitBlocks Lang.ScriptFw Lang.LineShapes Lang.LineDispatch Gen.Dispatch Gen.LineRx.
+From RV Require Import Base.Wire Base.Text Lang.Rx Lang.Lex Lang.PyLayout Lang.Layout Lang.DispatchSpec Lang.EmitBlocks Lang.ScriptFw Lang.LineShapes Lang.LineDispatch Lang.Promote Lang.EmitStmt Gen.Dispatch Gen.LineRx.
 From RV Require Import Proofs.LexP Proofs.RelayoutP Proofs.RoundTripP Proofs.C07P Proofs.EmitBlocksP Proofs.FirmwareBlocksP.
 From RV Require Import Proofs.TopRoundTripP Proofs.ScriptFwP Proofs.ScriptTopP Proofs.RxP Proofs.LineShapesP Proofs.LineDispatchP.
+From RV Require Import Proofs.PromoteP Proofs.EmitStmtP.
 Import ListNotations.
 Open Scope Z_scope.
 
@@ -411,3 +418,145 @@ Example C07_led_handler_unguarded :
   is_rx_handler RE_RGB_LED_ON (hd_of (dispatch chain false [[[120;121;122]]; []; []; []; []] (line_call0 [120;121;122] s_on [] [] [] []))) = true.
 Proof. exact led_handler_unguarded. Qed.
 Print Assumptions C07_led_handler_unguarded.
+
+(* ================================================================ variable promotion keeps every statement in its block *)
+
+(* _rewrite_nodes: for EVERY set of promoted names and every node tree, the rewritten tree is the same tree of
+   the same statements - every declaration of a promoted name has become the assignment with the same target
+   and the same value, in the same place; nothing else changed, nothing was dropped, nothing moved *)
+Theorem C07_promotion_rewrite_keeps_every_statement : forall p ns,
+  map as_assign (rewrite p ns) = map as_assign ns.
+Proof. exact rewrite_keeps_statements. Qed.
+Print Assumptions C07_promotion_rewrite_keeps_every_statement.
+
+(* the local _rewrite of the if handler (it enters nested if statements only) *)
+Theorem C07_promotion_rewrite_if_keeps_every_statement : forall p ns,
+  map as_assign (rewrite_if p ns) = map as_assign ns.
+Proof. exact rewrite_if_keeps_statements. Qed.
+Print Assumptions C07_promotion_rewrite_if_keeps_every_statement.
+
+(* read as (enclosing block headers, statement) pairs in script order: identical before and after *)
+Theorem C07_promotion_rewrite_keeps_paths : forall p pre ns,
+  items pre (rewrite p ns) = items pre ns /\ items pre (rewrite_if p ns) = items pre ns.
+Proof. exact (fun p pre ns => conj (rewrite_keeps_items p pre ns) (rewrite_if_keeps_items p pre ns)). Qed.
+Print Assumptions C07_promotion_rewrite_keeps_paths.
+
+(* and the rewrite does its job: no promoted name is still declared below (C++ would see a second declaration) *)
+Theorem C07_promotion_rewrite_assigns_promoted : forall p ns,
+  forallb (fun x => negb (tmem x p)) (decl_names (rewrite p ns)) = true.
+Proof. exact rewrite_assigns_promoted. Qed.
+Print Assumptions C07_promotion_rewrite_assigns_promoted.
+
+Theorem C07_promotion_rewrite_if_assigns_promoted_partial : forall p ns, if_reach p ns = true ->
+  forallb (fun x => negb (tmem x p)) (decl_names (rewrite_if p ns)) = true.
+Proof. exact rewrite_if_assigns_promoted. Qed.
+Print Assumptions C07_promotion_rewrite_if_assigns_promoted_partial.
+
+(* what a while / for handler appends to the body it builds: synthetic declarations (default initialiser, one per
+   promoted name; none at the top level of the sketch, where the name becomes a global) and then the loop under
+   its own header with every statement of its body in place *)
+Theorem C07_promoted_loop_keeps_its_body : forall names tys top h b,
+  exists decls b',
+    promote_loop names tys top h b = decls ++ [PCtl h b']
+    /\ forallb is_placeholder decls = true
+    /\ decl_names decls = (if top then [] else names)
+    /\ map as_assign b' = map as_assign b
+    /\ forallb (fun x => negb (tmem x names)) (decl_names b') = true.
+Proof. exact promote_loop_spec. Qed.
+Print Assumptions C07_promoted_loop_keeps_its_body.
+
+(* loop, try and if handlers alike: the statements (with their paths) after promotion are those of the
+   placeholders followed by those of the block as the script wrote it *)
+Theorem C07_promotion_adds_only_placeholders : forall names tys (top : bool) pre,
+  (forall h b, exists decls,
+     forallb is_placeholder decls = true /\ length decls = (if top then O else length names) /\
+     items pre (promote_loop names tys top h b) = items pre decls ++ items pre [PCtl h b]) /\
+  (forall parts, exists decls,
+     forallb is_placeholder decls = true /\ length decls = (if top then O else length names) /\
+     items pre (promote_try names tys top parts) = items pre decls ++ items pre parts) /\
+  (forall parts, exists decls,
+     forallb is_placeholder decls = true /\ length decls = (if top then O else length names) /\
+     items pre (promote_if names tys top parts) = items pre decls ++ items pre parts).
+Proof.
+  exact (fun names tys top pre =>
+    conj (fun h b => promote_loop_statements names tys top h b pre)
+      (conj (fun parts => promote_try_statements names tys top parts pre)
+            (fun parts => promote_if_statements names tys top parts pre))).
+Qed.
+Print Assumptions C07_promotion_adds_only_placeholders.
+
+(* non-vacuity and the shape at stake: `count = 0` at the top of a for body, directly in front of an inner while -
+   a user statement that looks exactly like a synthetic placeholder; it stays the first statement of the for body *)
+Example C07_reset_stays_in_loop :
+  promote_loop [t_count] [(t_count, s_int)] false (HFor t_i t_3) ex_loop_body
+  = [PDecl t_count s_int s_0 false;
+     PCtl (HFor t_i t_3) [PAssign t_count s_0; PCtl (HWhile t_lt2) [PSimple [[116;59]]; PAssign t_count t_inc]]]
+  /\ is_placeholder (PDecl t_count s_int s_0 false) = true
+  /\ items [] (promote_loop [t_count] [(t_count, s_int)] false (HFor t_i t_3) ex_loop_body)
+     = [([], ItAssign t_count s_0);
+        ([HFor t_i t_3], ItAssign t_count s_0);
+        ([HFor t_i t_3; HWhile t_lt2], ItOther [[116;59]]);
+        ([HFor t_i t_3; HWhile t_lt2], ItAssign t_count t_inc)].
+Proof. exact reset_stays_in_loop. Qed.
+Print Assumptions C07_reset_stays_in_loop.
+
+Example C07_dropped_reset_loses_statement :
+  items [] ex_reset_dropped <> items [] (promote_loop [t_count] [(t_count, s_int)] false (HFor t_i t_3) ex_loop_body).
+Proof. exact dropped_reset_loses_statement. Qed.
+Print Assumptions C07_dropped_reset_loses_statement.
+
+(* ================================================================ statement nodes and the emitter's de-duplication sets *)
+
+(* _emit_block = decide what every device declaration writes (the only nodes that look at the sets), then write *)
+Theorem C07_emit_resolves_then_writes : forall b l ind st,
+  emit_sl b ind l st = (emit_pl ind (fst (res_l b l st)), snd (res_l b l st)).
+Proof. exact emit_list_is_resolve_then_write. Qed.
+Print Assumptions C07_emit_resolves_then_writes.
+
+(* ... and the first step leaves every statement node and every stanza where and what it was, in every state *)
+Theorem C07_resolve_keeps_every_statement : forall b l st,
+  map stmt_only (fst (res_l b l st)) = map stmt_only l.
+Proof. exact res_l_keeps_statements. Qed.
+Print Assumptions C07_resolve_keeps_every_statement.
+
+(* inside and outside setup(), whatever the two sets hold (whatever was emitted before): the lines of every
+   statement node and of every stanza are in what _emit_block writes, in order - the same statement twice is
+   written twice *)
+Theorem C07_statement_lines_written_in_every_state : forall b st ind ns,
+  sub (emit_pl ind (map stmt_only ns)) (fst (emit_sl b ind ns st)).
+Proof. exact statement_lines_written_in_every_state. Qed.
+Print Assumptions C07_statement_lines_written_in_every_state.
+
+Theorem C07_statement_line_count : forall b st ind ns t,
+  (count_line t (emit_pl ind (map stmt_only ns)) <= count_line t (fst (emit_sl b ind ns st)))%nat.
+Proof. exact statement_line_count. Qed.
+Print Assumptions C07_statement_line_count.
+
+(* nodes other than device declarations neither read nor change the sets *)
+Theorem C07_statements_ignore_the_sets : forall b l ind st,
+  forallb no_decl l = true -> emit_sl b ind l st = (emit_pl ind l, st).
+Proof. exact no_decl_list_state_independent. Qed.
+Print Assumptions C07_statements_ignore_the_sets.
+
+Theorem C07_outside_setup_sets_unchanged : forall l ind st, snd (emit_sl false ind l st) = st.
+Proof. exact outside_setup_sets_unchanged. Qed.
+Print Assumptions C07_outside_setup_sets_unchanged.
+
+(* non-vacuity and the shape at stake: OUTPUT -> INPUT -> OUTPUT on one pin and the same statement again inside
+   an if block of setup(): four statements, four lines; the declaration's own pinMode is the de-duplicated one *)
+Example C07_repeated_pin_mode_written :
+  fst (emit_sl true s_two ex_setup ([], []))
+  = [s_two ++ l_pm13; s_two ++ l_out7; s_two ++ l_in7; s_two ++ l_out7;
+     s_two ++ h_a ++ s_open; s_two ++ s_two ++ l_in7; s_two ++ s_close]
+  /\ count_line (s_two ++ l_out7) (fst (emit_sl true s_two ex_setup ([], []))) = 2%nat
+  /\ fst (emit_sl true s_two ex_setup ([k_led], []))
+     = [s_two ++ l_out7; s_two ++ l_in7; s_two ++ l_out7;
+        s_two ++ h_a ++ s_open; s_two ++ s_two ++ l_in7; s_two ++ s_close].
+Proof. exact repeated_pin_mode_written. Qed.
+Print Assumptions C07_repeated_pin_mode_written.
+
+Example C07_dropped_repeat_not_sub :
+  ~ sub (emit_pl s_two (map stmt_only ex_setup))
+        [s_two ++ l_pm13; s_two ++ l_out7; s_two ++ l_in7; s_two ++ h_a ++ s_open; s_two ++ s_close].
+Proof. exact dropped_repeat_not_sub. Qed.
+Print Assumptions C07_dropped_repeat_not_sub.
